@@ -89,6 +89,7 @@ func batchMain(args []string) {
 	refdir := fs.String("refdir", "", "reference cache directory")
 	racelog := fs.String("racelog", "", "GORACE log_path prefix (race builds)")
 	samples := fs.Int("samples", 2, "emit the full spec and decisions of the first N runs")
+	free := fs.Bool("free", false, "run the tasks free (no scheduler, real parallelism): un-simulated supplementary pass")
 	fs.Parse(args)
 
 	c, err := loadCorpus(*corpusF)
@@ -103,6 +104,7 @@ func batchMain(args []string) {
 			json.Unmarshal(b, &cen)
 		}
 	}
+	freeRunning = *free
 	checkForeign = len(cen.GoStmts) > 0 || os.Getenv("SIM_CHECK_FOREIGN") != ""
 	rc := newRefCache(*refdir)
 	w := bufio.NewWriterSize(os.Stdout, 1<<20)
